@@ -110,6 +110,9 @@ func (r *run) doCDgram(st step) {
 	if ai != nil {
 		la = ai.a
 	}
+	if r.forceLA != 0 {
+		la = r.forceLA // the association whose teardown is in progress (still in the table)
+	}
 	r.nDg++
 	did := r.nDg
 	saltSize := 32
